@@ -228,7 +228,7 @@ def concrete_values(scratch, harness, harness_timeout=900):
     failing = [c for c in cands if c['kind'] != 'cover']
     if not failing:
         # a harness without symbolic inputs (fully concrete) has no values to print: replay it as is
-        if 'VERIFICATION:- FAILED' in out and not re.search(r'let concrete_vals', out):
+        if 'VERIFICATION:- FAILED' in out and all(not c['values'] for c in cands):
             return [{'kind': 'assertion', 'description': '(harness has no symbolic input)', 'values': []}], out
         return None, out
     return failing, out
